@@ -17,16 +17,15 @@ def topOf (t : Tbl) : Ex → Option Nat
   | .bin _ o _ => some (t.lbp o)
   | _ => none
 
-/-- `bin _ o r` is read in the mixfix form `o a SEP b` when `o` has separator `s`,
-`r = bin a s b` and the printer leaves `r` bare (the crate's between / escape "hacks") -/
-def mixParts (t : Tbl) (p : Policy) (o : Nat) (r : Ex) : Option (Ex × Nat × Ex) :=
-  match t.mix o, r with
-  | some s, .bin a s' b => if s' = s ∧ p.dropR o r = true then some (a, s, b) else none
+/-- `bin _ o r` is printed in the mixfix form `o a SEP b` when the printer knows `o` as a
+ternary encoding with separator `s` and `r = bin a s b` -/
+def mixParts (p : Policy) (o : Nat) (r : Ex) : Option (Ex × Nat × Ex) :=
+  match p.mixOf o, r with
+  | some s, .bin a s' b => if s' = s then some (a, s, b) else none
   | _, _ => none
 
-theorem mixParts_some {t : Tbl} {p : Policy} {o : Nat} {r a b : Ex} {s : Nat}
-    (h : mixParts t p o r = some (a, s, b)) :
-    t.mix o = some s ∧ r = .bin a s b ∧ p.dropR o r = true := by
+theorem mixParts_some {p : Policy} {o : Nat} {r a b : Ex} {s : Nat}
+    (h : mixParts p o r = some (a, s, b)) : p.mixOf o = some s ∧ r = .bin a s b := by
   unfold mixParts at h
   split at h
   · rename_i s0 a0 s' b0 hm
@@ -34,9 +33,26 @@ theorem mixParts_some {t : Tbl} {p : Policy} {o : Nat} {r a b : Ex} {s : Nat}
     · rename_i hc
       simp only [Option.some.injEq, Prod.mk.injEq] at h
       obtain ⟨rfl, rfl, rfl⟩ := h
-      exact ⟨hm, by rw [hc.1], hc.2⟩
+      exact ⟨hm, by rw [hc]⟩
     · cases h
   · cases h
+
+theorem pr_bin_reg {p : Policy} {l r : Ex} {o : Nat} (h : mixParts p o r = none) :
+    pr p (.bin l o r) = wrap (p.dropL o l) (pr p l) ++ Tok.op o :: wrap (p.dropR o r) (pr p r) := by
+  cases r with
+  | bin a s b =>
+    have hne : ¬ p.mixOf o = some s := by
+      intro hm
+      simp [mixParts, hm] at h
+    simp [pr, hne]
+  | atom a => simp [pr]
+  | un y => simp [pr]
+  | node k args => simp [pr]
+
+theorem pr_bin_mix {p : Policy} {l a b : Ex} {o s : Nat} (h : p.mixOf o = some s) :
+    pr p (.bin l o (.bin a s b)) = wrap (p.dropL o l) (pr p l) ++ Tok.op o ::
+      (wrap (p.dropML o a) (pr p a) ++ Tok.op s :: wrap (p.dropMR o b) (pr p b)) := by
+  simp [pr, h]
 
 /-- a following operator token `q` is not captured anywhere down the bare right spine -/
 inductive StopsOp (t : Tbl) (p : Policy) (q : Nat) : Ex → Prop where
@@ -44,10 +60,10 @@ inductive StopsOp (t : Tbl) (p : Policy) (q : Nat) : Ex → Prop where
   | node (k args) : StopsOp t p q (.node k args)
   | un (y) : (t.infx q = true → t.lbp q < t.nbp) → (p.dropN y = true → StopsOp t p q y) →
       StopsOp t p q (.un y)
-  | binReg (l o r) : mixParts t p o r = none → (t.infx q = true → t.lbp q < t.rbp o) →
+  | binReg (l o r) : mixParts p o r = none → (t.infx q = true → t.lbp q < t.rbp o) →
       t.mix o ≠ some q → (p.dropR o r = true → StopsOp t p q r) → StopsOp t p q (.bin l o r)
-  | binMix (l o r a s b) : mixParts t p o r = some (a, s, b) →
-      (t.infx q = true → t.lbp q < t.rbp2 o) → (p.dropR s b = true → StopsOp t p q b) →
+  | binMix (l o r a s b) : mixParts p o r = some (a, s, b) →
+      (t.infx q = true → t.lbp q < t.rbp2 o) → (p.dropMR o b = true → StopsOp t p q b) →
       StopsOp t p q (.bin l o r)
 
 /-- every operator exposed on the bare left spine can be absorbed at level `m` -/
@@ -67,17 +83,17 @@ mutual
     | atom (a) : Lic t p (.atom a)
     | un (y) : Lic t p y → (p.dropN y = true → Fits t p t.nbp y) → Lic t p (.un y)
     | node (k args) : LicL t p args → Lic t p (.node k args)
-    | binReg (l o r) : mixParts t p o r = none → (t.mix o = none ∨ t.mand o = false) →
+    | binReg (l o r) : mixParts p o r = none → (t.mix o = none ∨ t.mand o = false) →
         t.infx o = true → Lic t p l → Lic t p r →
         (p.dropL o l = true → StopsOp t p o l ∧ ChainOK t o l) →
         (p.dropR o r = true → Fits t p (t.rbp o) r) →
         Lic t p (.bin l o r)
-    | binMix (l o r a s b) : mixParts t p o r = some (a, s, b) →
+    | binMix (l o r a s b) : mixParts p o r = some (a, s, b) → t.mix o = some s →
         t.infx o = true → Lic t p l → Lic t p a → Lic t p b →
         (t.infx s = true → t.lbp s < t.rbp o) →
         (p.dropL o l = true → StopsOp t p o l ∧ ChainOK t o l) →
-        (p.dropL s a = true → Fits t p (t.rbp o) a ∧ StopsOp t p s a) →
-        (p.dropR s b = true → Fits t p (t.rbp2 o) b) →
+        (p.dropML o a = true → Fits t p (t.rbp o) a ∧ StopsOp t p s a) →
+        (p.dropMR o b = true → Fits t p (t.rbp2 o) b) →
         Lic t p (.bin l o r)
   inductive LicL (t : Tbl) (p : Policy) : ExList → Prop where
     | nil : LicL t p .nil
@@ -135,7 +151,7 @@ theorem fits_zero_of_lic (t : Tbl) (p : Policy) : ∀ e, Lic t p e → Fits t p 
     cases h with
     | binReg _ _ _ _ _ hi hl _ _ _ =>
       exact .bin l o r hi (Nat.zero_le _) (fun _ => fits_zero_of_lic t p l hl)
-    | binMix _ _ _ a s b _ hi hl _ _ _ _ _ _ =>
+    | binMix _ _ _ a s b _ _ hi hl _ _ _ _ _ _ =>
       exact .bin l o r hi (Nat.zero_le _) (fun _ => fits_zero_of_lic t p l hl)
 
 end SeaQ.Pratt
